@@ -137,6 +137,63 @@ def build_case(cid, rng, dynamic, force_async=False, no_send=False, probes=False
     return Case(cid, "\n".join(L + D) + "\n", meta=meta)
 
 
+def hygiene_case(cid, rng):
+    """Delegated trait and impl block both stamped out by macro_rules!, with parameter names of mixed hygiene."""
+    n = rng.randint(2, 4)
+    dynamic = rng.random() < 0.4
+    def mixed():
+        origins = [rng.choice(["caller", "macro"]) for _ in range(n)]
+        if len(set(origins)) == 1:
+            origins[0] = "caller" if origins[0] == "macro" else "macro"
+        used = {"caller": set(), "macro": set()}
+        names = []
+        for o in origins:
+            nm = rng.choice([x for x in ["a", "b", "inner", "c", "d"] if x not in used[o]][:3])
+            used[o].add(nm)
+            names.append(nm)
+        return origins, names
+    def render(origins, names, prefix):
+        matcher, args, ps = [], [], []
+        for i, (o, nm) in enumerate(zip(origins, names)):
+            if o == "caller":
+                matcher.append("$%s%d:ident" % (prefix, i))
+                args.append(nm)
+                ps.append("$%s%d" % (prefix, i))
+            else:
+                ps.append(nm)
+        return matcher, args, ps
+    o1, n1 = mixed()
+    o2, n2 = mixed()
+    m1, a1, p1 = render(o1, n1, "p")
+    m2, a2, p2 = render(o2, n2, "q")
+    L = ["macro_rules! make_trait {", "    (%s) => {" % ", ".join(["$tr:ident", "$timpl:ident"] + m1),
+         "        #[::entrait::entrait($timpl, delegate_by = %s)] /*@inv*/" % ("ref" if dynamic else "DelegateTr"),
+         "        pub trait $tr { fn m0(&self, %s) -> ::std::string::String; }" % ", ".join("%s: i32" % x for x in p1),
+         "    };", "}", "make_trait!(%s);" % ", ".join(["Tr", "TrImpl"] + a1)]
+    fid = "%s::TargetA::m0" % cid
+    L += ["pub struct TargetA;", "macro_rules! make_impl {", "    (%s) => {" % ", ".join(["$ty:ident"] + m2),
+          "        #[::entrait::entrait%s] /*@impl_TargetA*/" % ("(ref)" if dynamic else ""),
+          "        impl TrImpl for $ty { fn m0<D>(deps: &D, %s) -> ::std::string::String { ::vrt::enter(\"%s\", ::vrt::tn(deps), ::vrt::addr(deps), &[%s]); ::std::format!(\"%s\", %s) } }" % (
+              ", ".join("%s: i32" % x for x in p2), fid, ", ".join("&%s as &dyn ::core::fmt::Debug" % x for x in p2), "|".join("{}" for _ in p2), ", ".join(p2)),
+          "    };", "}", "make_impl!(%s);" % ", ".join(["TargetA"] + a2)]
+    if dynamic:
+        L.append("pub struct AppD { pub t: ::std::boxed::Box<dyn TrImpl<AppD> + ::core::marker::Send + ::core::marker::Sync> }")
+        L.append("impl ::core::convert::AsRef<dyn TrImpl<AppD>> for AppD { fn as_ref(&self) -> &(dyn TrImpl<AppD> + 'static) { &*self.t } }")
+        ctor, aty = "AppD { t: ::std::boxed::Box::new(TargetA) }", "AppD"
+    else:
+        L.append("pub struct App0; impl DelegateTr<Self> for App0 { type Target = TargetA; }")
+        ctor, aty = "App0", "App0"
+    vals = ", ".join("%di32" % (101 + i) for i in range(n))
+    D = ["pub fn run() {", "    let app0 = ::entrait::Impl::new(%s);" % ctor,
+         '    ::vrt::fact("app0_addr", ::vrt::addr(&app0)); ::vrt::fact("app0_tn", ::vrt::tn(&app0));',
+         '    ::vrt::phase("direct:a0:m0"); let r = TargetA::m0(&app0, %s); ::vrt::result(&r); ::vrt::record_polls();' % vals,
+         '    ::vrt::phase("trait:a0:m0"); let r = app0.m0(%s); ::vrt::result(&r); ::vrt::record_polls();' % vals, "}"]
+    meta = {"dynamic": dynamic, "targets": ["TargetA"], "apps": [(aty, "TargetA", ctor)], "nontrivial": True, "opts": [], "async_trait": None,
+            "async_methods": [], "no_send": False, "methods": ["macro_rules m0 trait names=%s/%s impl names=%s/%s" % (n1, o1, n2, o2)],
+            "calls": [{"label": "a0:m0", "app": 0, "fn": fid, "args": [str(101 + i) for i in range(n)], "async": False, "nested": [], "others": []}]}
+    return Case(cid, "\n".join(L + D) + "\n", meta=meta)
+
+
 def check_case(c, rep):
     m = c.meta
     if c.removed is not None:
@@ -223,7 +280,7 @@ def run(tier, seed):
                 "call. non-trivial = >= 2 targets and (>= 2 methods or two same-typed adjacent params)")
     n = 300 if tier == "quick" else 3000
     rng = core.rng_for(PROP, seed)
-    cases = [build_case("c07_%04d" % i, rng, dynamic=rng.random() < 0.5) for i in range(n)]
+    cases = [(hygiene_case("c07_%04d" % i, rng) if rng.random() < 0.1 else build_case("c07_%04d" % i, rng, dynamic=rng.random() < 0.5)) for i in range(n)]
     pin = Case("c07known_dyn_borrow", KNOWN_PIN_SRC, meta={"pin": "dyn_borrow_from_deps"})
     pin2 = Case("c07known_typed_receiver", KNOWN_PIN2_SRC, meta={"pin": "typed_receiver_with_target"})
     st = selftest.case("selftest_c07")
